@@ -5,7 +5,7 @@ import ast
 
 import z3
 
-from .core import (BOOL, INT, NONEV, NUM, STR, TBool, TDict, TInt, TList, TMap, TNone, TNum, TOpaque, TOpt, TRef,
+from .core import (esort, epack, eunpack, BOOL, INT, NONEV, NUM, STR, TBool, TDict, TInt, TList, TMap, TNone, TNum, TOpaque, TOpt, TRef,
                    TRefLike, TSeq, TSet, TSetV, TStr, TTuple, TUnion, Unsupported, Val, boolv, coerce, is_numeric,
                    to_real, val_eq)
 
@@ -193,9 +193,9 @@ def truth(heapops, heap, v: Val):
     if isinstance(t, TDict):
         return heapops.dict_dom(heap, v) != z3.K(t.ksort(), z3.BoolVal(False))
     if isinstance(t, TSet):
-        return heapops.set_arr(heap, v) != z3.K(t.e.sort(), z3.BoolVal(False))
+        return heapops.set_arr(heap, v) != z3.K(esort(t.e), z3.BoolVal(False))
     if isinstance(t, TSetV):
-        return v.v != z3.K(t.e.sort(), z3.BoolVal(False))
+        return v.v != z3.K(esort(t.e), z3.BoolVal(False))
     if isinstance(t, TMap):
         return v.v[0] != z3.K(t.ksort(), z3.BoolVal(False))
     if isinstance(t, TList):
@@ -233,11 +233,11 @@ def length(heapops, heap, v: Val) -> Val:
         USED.add(("card", str(t.ksort())))
         return Val(INT, heapops.card_fn(t.ksort())(v.v[0]))
     if isinstance(t, TSet):
-        USED.add(("card", str(t.e.sort())))
-        return Val(INT, heapops.card_fn(t.e.sort())(heapops.set_arr(heap, v)))
+        USED.add(("card", str(esort(t.e))))
+        return Val(INT, heapops.card_fn(esort(t.e))(heapops.set_arr(heap, v)))
     if isinstance(t, TSetV):
-        USED.add(("card", str(t.e.sort())))
-        return Val(INT, heapops.card_fn(t.e.sort())(v.v))
+        USED.add(("card", str(esort(t.e))))
+        return Val(INT, heapops.card_fn(esort(t.e))(v.v))
     if isinstance(t, TList):
         return Val(INT, z3.Length(heapops.list_seq(heap, v)))
     if isinstance(t, (TSeq, TStr)):
